@@ -704,8 +704,8 @@ func (z *vfC03Fuzz) End() {
 	res := map[string]any{
 		"property": "C03", "harness": z.part, "tier": tier, "seed": seed,
 		"evaluations": execs, "distinct_nontrivial": len(distinct), // inputs are engine-generated; only failing ones are kept
-		"samples":  []any{},
-		"counters": map[string]int64{"ev_fuzz_execs": execs},
+		"samples":    []any{},
+		"counters":   map[string]int64{"ev_fuzz_execs": execs},
 		"violations": viols, "inconclusive": []string{},
 		"wall_s": time.Since(z.start).Seconds(), "complete": true,
 	}
@@ -822,7 +822,7 @@ func vfC03ClientHello(sni string) []byte {
 		sn := vfC03Cat([]byte{byte((len(name) + 3) >> 8), byte(len(name) + 3), 0x00, byte(len(name) >> 8), byte(len(name))}, name)
 		ext = vfC03Cat(ext, []byte{0x00, 0x00, byte(len(sn) >> 8), byte(len(sn))}, sn)
 	}
-	ext = vfC03Cat(ext, []byte{0x00, 0x2b, 0x00, 0x03, 0x02, 0x03, 0x04}) // supported_versions: TLS 1.3
+	ext = vfC03Cat(ext, []byte{0x00, 0x2b, 0x00, 0x03, 0x02, 0x03, 0x04})       // supported_versions: TLS 1.3
 	ext = vfC03Cat(ext, []byte{0x00, 0x0a, 0x00, 0x04, 0x00, 0x02, 0x00, 0x1d}) // supported_groups: x25519
 	body := []byte{0x03, 0x03}
 	for i := 0; i < 32; i++ {
